@@ -102,6 +102,19 @@ func runC12PacketTrace(ops []c12Op) (trace []string, finalLost []int, findings [
 			handles = append(handles, h)
 			open++
 			trace = append(trace, fmt.Sprintf("OAcquire %d", len(handles)-1))
+		case "failacquire":
+			if open != 0 {
+				continue
+			}
+			own, err := net.ListenPacket("udp", addr)
+			if err != nil {
+				continue
+			}
+			if h, err := mgr.ListenPacket(addr); err == nil {
+				h.Close()
+				findings = append(findings, MonitorFinding{"C12/harness", "ListenPacket succeeded on an address held by another socket", ops})
+			}
+			own.Close()
 		case "dial":
 			if open == 0 {
 				continue // nobody holds the socket
